@@ -155,3 +155,61 @@ func orderDeferredBad(s *dstore) (err error) {
 	}
 	return s.cl.Flush()
 }
+
+func checkProof(p []byte, root byte) bool { return len(p) > 0 && p[0] == root }
+
+type trust struct {
+	id  uint64
+	key []byte
+}
+
+// EXPECT-LITE pass
+func verdictOK(s *dstore, t *trust, p []byte) (res uint64, err error) {
+	defer func() { s.n++ }()
+	if !checkProof(p, 1) {
+		return 0, ErrBad
+	}
+	if t.id > 0 {
+		if err := s.tx.Sync(); err != nil {
+			return 0, err
+		}
+	}
+	if t.key != nil {
+		if err := s.cl.Flush(); err != nil {
+			return 0, err
+		}
+	}
+	s.frontier = 7
+	return 1, nil
+}
+
+// EXPECT-LITE fail order:selftest.verdictIgnored:proof_before_frontier
+func verdictIgnored(s *dstore, t *trust, p []byte) (uint64, error) {
+	ok := checkProof(p, 1)
+	if !ok && t.id > 5 {
+		return 0, ErrBad
+	}
+	s.frontier = 7
+	return 1, nil
+}
+
+// EXPECT-LITE fail order:selftest.branchOffByOne:sync_or_first_before_frontier
+func branchOffByOne(s *dstore, t *trust, p []byte) (uint64, error) {
+	if t.id > 1 {
+		if err := s.tx.Sync(); err != nil {
+			return 0, err
+		}
+	}
+	s.frontier = 7
+	return 1, nil
+}
+
+// EXPECT-LITE fail order:selftest.okWithoutFrontier:frontier_before_ok
+func okWithoutFrontier(s *dstore, t *trust, p []byte) (res uint64, err error) {
+	defer func() { s.n++ }()
+	if t.id == 3 {
+		return 1, nil
+	}
+	s.frontier = 7
+	return 1, nil
+}
